@@ -31,6 +31,7 @@ PAIRS = [
 
 TTL_CMDS = ("setex", "expire", "hexpire", "lexpire", "sexpire", "zexpire", "bexpire")
 MULTI = ("del", "hmclear", "lmclear", "smclear", "zmclear")
+KVKV = ("mset", "plset")
 
 
 def req_keys(reqs):
@@ -47,7 +48,7 @@ def req_keys(reqs):
         name = unh(args[0]).decode("latin1").lower()
         if name in MULTI:
             ks = args[1:]
-        elif name == "mset":
+        elif name in KVKV:
             ks = args[1::2]
         else:
             ks = args[1:2]
@@ -414,6 +415,10 @@ def run(ctx):
         jobs.append(("fresh", "-seed %d -n %d -len %d -tier %s" % (ctx.seed, nlogs, llen, ctx.tier), None))
         jobs.append(("pairs", "-pairs -tier %s" % ctx.tier, "pairs"))
         jobs.append(("edge", "-edge", "pairs"))
+        # multi-part writes failing part-way between successful writes, restore cut at every point
+        jobs.append(("partial", "-partial", "first"))
+        # collections > RangeDeleteNum cleared by range deletion and re-created, on mem, pebble and rocksdb
+        jobs.append(("big", "-big", "first"))
 
     if not ctx.replay and not quick:
         # thorough: identical runs are identical, before any pair that differs in a dimension is judged
